@@ -349,6 +349,8 @@ class PubSubRun:
                 self.c14_case(self.forced)
             elif self.forced and self.forced.get("table") == "long_stream":
                 self.long_stream(self.forced)
+            elif self.forced and self.forced.get("table") == "dyn_pool_full":
+                self.dyn_pool_full(self.forced)
             else:
                 for _ in range(self.n_ops):
                     self.one_op()
@@ -364,6 +366,38 @@ class PubSubRun:
             self.collect()
             self.w.teardown()
         return res
+
+    def dyn_pool_full(self, f):
+        """every manager-assigned id is held; further requests for one are refused.  Whatever the manager writes
+        on those connections before it closes them is a stream like any other"""
+        ch = self.ch
+        w = self.w
+        self.universe = [1000]
+        w.quiesce_limit = 5000
+        holders = []
+        for i in range(100):
+            a = self.new_actor(f"h{i}")
+            a.protected = True
+            a.open()
+            a.handshake("v2v1", req_id=0, allow_multiple=False, name=b"", pid=100 + i)
+            holders.append(a)
+            if i % 10 == 9:
+                w.quiesce()
+        w.quiesce()
+        for i in range(f.get("extra", 3)):
+            a = self.new_actor(f"x{i}")
+            a.open()
+            a.handshake(ch.choose("pool.proto", ["v2v1", "v1"]), req_id=0, allow_multiple=False, name=b"", pid=900 + i)
+            a.subscribe(1000)
+            w.quiesce()
+        # one holder leaves, a newcomer is served again
+        holders[ch.pick("pool.leaver", 100)].leave("fin")
+        w.quiesce()
+        a = self.new_actor("late")
+        a.open()
+        a.handshake("v2v1", req_id=0, allow_multiple=False, name=b"", pid=999)
+        w.quiesce()
+        self.res.probes["dynamic_pool_full"] += 1
 
     def long_stream(self, f):
         """a long-lived connection: tens of thousands of frames to one subscriber (sequence numbers
@@ -1041,7 +1075,7 @@ def run(choices, prop: str, overrides=None, forced=None) -> RunResult:
 
 
 def c05_det_cases(tier):
-    return [dict(table="long_stream", n=33000), dict(table="long_stream", n=66000)]
+    return [dict(table="long_stream", n=33000), dict(table="long_stream", n=66000), dict(table="dyn_pool_full", extra=3)]
 
 
 def c14_det_cases(tier):
